@@ -41,12 +41,12 @@ def hasManual (es : List Event) : Bool :=
 
 /-- `t` has the sources and the last manual write of `s`, and no manual value that `s` has not -/
 def SameHist (s t : State) : Prop :=
-  t.src = s.src ∧ t.lastManual = s.lastManual ∧ (t.manualLive = true → s.manualLive = true)
+  t.eff = s.eff ∧ t.src = s.src ∧ t.lastManual = s.lastManual ∧ (t.manualLive = true → s.manualLive = true)
 
-theorem SameHist.refl (s : State) : SameHist s s := ⟨rfl, rfl, id⟩
+theorem SameHist.refl (s : State) : SameHist s s := ⟨rfl, rfl, rfl, id⟩
 
 theorem SameHist.trans {a b c : State} (h1 : SameHist a b) (h2 : SameHist b c) : SameHist a c :=
-  ⟨h2.1.trans h1.1, h2.2.1.trans h1.2.1, fun h => h1.2.2 (h2.2.2 h)⟩
+  ⟨h2.1.trans h1.1, h2.2.1.trans h1.2.1, h2.2.2.1.trans h1.2.2.1, fun h => h1.2.2.2 (h2.2.2.2 h)⟩
 
 theorem applyResult_hist (s : State) : SameHist s (applyResult s) := by
   simp only [applyResult, SameHist]
@@ -59,16 +59,16 @@ theorem fetchState_hist (s : State) : SameHist s (fetchState s) := by
 theorem dIter_hist (s : State) : SameHist s (dIter s).1 := by
   rw [dIter_def]
   split
-  · exact ⟨rfl, rfl, id⟩
+  · exact ⟨rfl, rfl, rfl, id⟩
   · split
     · split
       · exact (fetchState_hist s).trans (applyResult_hist _)
       · exact fetchState_hist s
-    · exact ⟨rfl, rfl, id⟩
+    · exact ⟨rfl, rfl, rfl, id⟩
 
 theorem dLoop_hist (n : Nat) (s : State) : SameHist s (dLoop n s) := by
   induction n generalizing s with
-  | zero => exact ⟨rfl, rfl, id⟩
+  | zero => exact ⟨rfl, rfl, rfl, id⟩
   | succ n ih =>
     rw [dLoop]
     split
@@ -80,35 +80,37 @@ theorem pollD_hist (s : State) : SameHist s (pollD s) := by
   dsimp only
   split
   · refine SameHist.trans ?_ (dLoop_hist 3 _)
-    split <;> exact ⟨rfl, rfl, id⟩
-  · exact SameHist.trans ⟨rfl, rfl, id⟩ (dLoop_hist 3 _)
-  · split
-    · exact SameHist.trans (SameHist.trans ⟨rfl, rfl, id⟩ (applyResult_hist _)) (dLoop_hist 3 _)
-    · exact ⟨rfl, rfl, id⟩
+    split <;> exact ⟨rfl, rfl, rfl, id⟩
+  · exact SameHist.trans ⟨rfl, rfl, rfl, id⟩ (dLoop_hist 3 _)
+  · have h1 : SameHist s { s with dWoken := false } := ⟨rfl, rfl, rfl, id⟩
+    split
+    · exact (h1.trans (applyResult_hist _)).trans (dLoop_hist 3 _)
+    · exact h1
 
 theorem effUpdate_hist (s : State) : SameHist s (effUpdate s).1 := by
   unfold effUpdate
   split
-  · exact ⟨rfl, rfl, id⟩
+  · exact ⟨rfl, rfl, rfl, id⟩
   · have h := Frame.effAny (if s.eFirst = true then [] else effSources s.eff) s
-    exact ⟨h.src, h.lastManual, fun hh => by rw [← h.manualLive]; exact hh⟩
+    exact ⟨h.eff, h.src, h.lastManual, fun hh => by rw [← h.manualLive]; exact hh⟩
 
 theorem runEffect_hist (s : State) : SameHist s (runEffect s) := by
   obtain ⟨ms, mv, mr, x, h⟩ := runEffect_spec s
   rw [h]
-  exact ⟨rfl, rfl, id⟩
+  exact ⟨rfl, rfl, rfl, id⟩
 
 theorem eIter_hist (s : State) : SameHist s (eIter s).1 := by
   rw [eIter_def]
   split
-  · exact ⟨rfl, rfl, id⟩
-  · split
-    · exact SameHist.trans (SameHist.trans ⟨rfl, rfl, id⟩ (effUpdate_hist _)) (runEffect_hist _)
-    · exact SameHist.trans ⟨rfl, rfl, id⟩ (effUpdate_hist _)
+  · exact ⟨rfl, rfl, rfl, id⟩
+  · have h1 : SameHist s { s with eReg := true, eChan := false } := ⟨rfl, rfl, rfl, id⟩
+    split
+    · exact (h1.trans (effUpdate_hist _)).trans (runEffect_hist _)
+    · exact h1.trans (effUpdate_hist _)
 
 theorem eLoop_hist (n : Nat) (s : State) : SameHist s (eLoop n s) := by
   induction n generalizing s with
-  | zero => exact ⟨rfl, rfl, id⟩
+  | zero => exact ⟨rfl, rfl, rfl, id⟩
   | succ n ih =>
     rw [eLoop]
     split
@@ -122,8 +124,8 @@ theorem pollNth_hist (s : State) (j : Nat) : SameHist s (pollNth s j) := by
   · rename_i t _
     cases t
     · exact pollD_hist s
-    · exact SameHist.trans ⟨rfl, rfl, id⟩ (eLoop_hist 3 _)
-    · exact ⟨rfl, rfl, id⟩
+    · exact SameHist.trans ⟨rfl, rfl, rfl, id⟩ (eLoop_hist 3 _)
+    · exact ⟨rfl, rfl, rfl, id⟩
   · exact SameHist.refl s
 
 theorem dMarkDirty_hist (s : State) : SameHist s (dMarkDirty s) := by
@@ -136,6 +138,7 @@ theorem mMarkDirty_hist (s : State) : SameHist s (mMarkDirty s) := by
 
 /-- one event: sources, last manual write and "a manual value is live" evolve as the history says -/
 theorem step_hist (s : State) (e : Event) :
+    (step s e).eff = s.eff ∧
     (step s e).src = (match e with
       | .set i v => if i < s.src.length then setAt s.src i v else s.src
       | _ => s.src) ∧
@@ -145,27 +148,27 @@ theorem step_hist (s : State) (e : Event) :
   | set i v =>
     simp only [step, setSrc]
     split
-    · dsimp only
-      split
+    · split
       · have h := (dMarkDirty_hist { s with src := setAt s.src i v }).trans (mMarkDirty_hist _)
-        exact ⟨h.1, h.2.1, fun hh => .inl (h.2.2 hh)⟩
+        exact ⟨h.1, h.2.1, h.2.2.1, fun hh => .inl (h.2.2.2 hh)⟩
       · have h := dMarkDirty_hist { s with src := setAt s.src i v }
-        exact ⟨h.1, h.2.1, fun hh => .inl (h.2.2 hh)⟩
-    · exact ⟨rfl, rfl, .inl⟩
+        exact ⟨h.1, h.2.1, h.2.2.1, fun hh => .inl (h.2.2.2 hh)⟩
+    · exact ⟨rfl, rfl, rfl, .inl⟩
   | refetch =>
     have h := dMarkDirty_hist s
-    exact ⟨h.1, h.2.1, fun hh => .inl (h.2.2 hh)⟩
+    exact ⟨h.1, h.2.1, h.2.2.1, fun hh => .inl (h.2.2.2 hh)⟩
   | manualSet v => simp [step, manualSet]
   | complete f =>
     simp only [step, complete]
-    split <;> exact ⟨rfl, rfl, .inl⟩
-  | attach => exact ⟨rfl, rfl, .inl⟩
+    split <;> exact ⟨rfl, rfl, rfl, .inl⟩
+  | attach => exact ⟨rfl, rfl, rfl, .inl⟩
   | poll j =>
     have h := pollNth_hist s j
-    exact ⟨h.1, h.2.1, fun hh => .inl (h.2.2 hh)⟩
-  | get => exact ⟨rfl, rfl, .inl⟩
+    exact ⟨h.1, h.2.1, h.2.2.1, fun hh => .inl (h.2.2.2 hh)⟩
+  | get => exact ⟨rfl, rfl, rfl, .inl⟩
 
 theorem foldl_hist (s : State) (es : List Event) :
+    (es.foldl step s).eff = s.eff ∧
     (es.foldl step s).src = es.foldl (fun src e => match e with
       | .set i v => if i < src.length then setAt src i v else src
       | _ => src) s.src ∧
@@ -173,14 +176,14 @@ theorem foldl_hist (s : State) (es : List Event) :
       es.foldl (fun m e => match e with | .manualSet v => some v | _ => m) s.lastManual ∧
     ((es.foldl step s).manualLive = true → s.manualLive = true ∨ hasManual es = true) := by
   induction es generalizing s with
-  | nil => exact ⟨rfl, rfl, .inl⟩
+  | nil => exact ⟨rfl, rfl, rfl, .inl⟩
   | cons e es ih =>
-    obtain ⟨h1, h2, h3⟩ := ih (step s e)
-    obtain ⟨g1, g2, g3⟩ := step_hist s e
+    obtain ⟨h0, h1, h2, h3⟩ := ih (step s e)
+    obtain ⟨g0, g1, g2, g3⟩ := step_hist s e
     simp only [List.foldl_cons]
-    refine ⟨?_, ?_, ?_⟩
-    · rw [h1, g1]; cases e <;> rfl
-    · rw [h2, g2]; cases e <;> rfl
+    refine ⟨h0.trans g0, ?_, ?_, ?_⟩
+    · rw [h1, g1]
+    · rw [h2, g2]
     · intro hh
       rcases h3 hh with h | h
       · rcases g3 h with h | ⟨v, rfl⟩
@@ -188,18 +191,21 @@ theorem foldl_hist (s : State) (es : List Event) :
         · exact .inr (by simp [hasManual])
       · exact .inr (by simp only [hasManual, List.any_cons] at h ⊢; simp [h])
 
-/-- the model's sources are the sources of the history -/
-theorem run_src (c : Cfg) (es : List Event) : (run c es).src = latestSrc c es :=
+theorem run_effKind (c : Cfg) (es : List Event) : (run c es).eff = c.eff :=
   (foldl_hist (init c) es).1
 
-theorem run_lastManual (c : Cfg) (es : List Event) : (run c es).lastManual = lastManualOf es :=
+/-- the model's sources are the sources of the history -/
+theorem run_src (c : Cfg) (es : List Event) : (run c es).src = latestSrc c es :=
   (foldl_hist (init c) es).2.1
+
+theorem run_lastManual (c : Cfg) (es : List Event) : (run c es).lastManual = lastManualOf es :=
+  (foldl_hist (init c) es).2.2.1
 
 theorem run_manualLive (c : Cfg) (es : List Event) (h : hasManual es = false) :
     (run c es).manualLive = false := by
   cases hm : (run c es).manualLive
   · rfl
-  · rcases (foldl_hist (init c) es).2.2 hm with h' | h'
+  · rcases (foldl_hist (init c) es).2.2.2 hm with h' | h'
     · simp [init] at h'
     · simp [h] at h'
 
@@ -263,35 +269,7 @@ theorem C10_settles_on_latest (c : Cfg) (es : List Event) (hm : hasMemo c.eff = 
     (run c es).loading = false ∧ (run c es).value = expected (run c es) := by
   apply C10_settles_on_latest_partial c es hs
   apply run_eff
-  have : (run c es).eff = c.eff := by
-    have h : ∀ (es : List Event) (s : State), (es.foldl step s).eff = s.eff := by
-      intro es
-      induction es with
-      | nil => intro s; rfl
-      | cons e es ih =>
-        intro s
-        rw [List.foldl_cons, ih]
-        cases e with
-        | set i v =>
-          simp only [step, setSrc]
-          (repeat' split) <;> simp [dMarkDirty, dNotify, mMarkDirty, eMarkCheck, eNotify] <;>
-            (repeat' split) <;> rfl
-        | refetch => simp only [step, dMarkDirty, dNotify]; (repeat' split) <;> rfl
-        | manualSet v => simp [step, manualSet]
-        | complete f => simp only [step, complete]; split <;> rfl
-        | attach => rfl
-        | poll j =>
-          simp only [step, pollNth]
-          split
-          · rename_i t _
-            cases t
-            · exact ((Inv_eff_pollD s))
-            · exact ((Inv_eff_pollE s))
-            · rfl
-          · rfl
-        | get => rfl
-    exact (h es (init c)).trans rfl
-  rw [this]; exact hm
+  rw [run_effKind]; exact hm
 
 /-- In terms of the history alone: without manual writes the settled value is the fetcher applied to the
 latest source values (the sources as the `set` events of the history leave them). -/
